@@ -343,6 +343,17 @@ pub fn oracle_c06(sc: &Scenario, s: &Session) -> Option<Violation> {
     let sig = sig.unwrap();
     // every closure target up to date at the final idle point
     for t in &c.clo {
+        if let Some(v) = target_up_to_date(sc, s, &c, t, sig) {
+            return Some(v);
+        }
+    }
+    None
+}
+
+/// Is `t` up to date at the final idle point (just before the signal `sig`)?
+pub fn target_up_to_date(sc: &Scenario, s: &Session, c: &InvCtx, t: &Tid, sig: u64) -> Option<Violation> {
+    let r = &s.r;
+    {
         let tt = sc.target(t.0, &t.1).unwrap();
         let want = final_snapshot(sc, &s.case, t);
         match tt.kind {
@@ -360,10 +371,10 @@ pub fn oracle_c06(sc: &Scenario, s: &Session) -> Option<Violation> {
                     let expect = simrt::stamp::stamp(&c.sim_id(t), w, want, tt.size);
                     let have = std::fs::read(pdir.join(w)).ok();
                     if have.as_deref() != Some(&expect[..]) {
-                        let last_word = last_word_for(&c, t);
+                        let last_word = last_word_for(c, t);
                         return viol(
                             "output-stale-after-changes-stopped",
-                            format!("target={} {} last-word={}", c.display(t), change_placement(&c, t), last_word),
+                            format!("target={} {} last-word={}", c.display(t), change_placement(c, t), last_word),
                             format!(
                                 "after changes stopped and zinoma went idle, {} of {} is not what a build from the final inputs produces (expected stamp {}, found {:?}); last thing zinoma said about it: {}",
                                 w,
@@ -380,7 +391,7 @@ pub fn oracle_c06(sc: &Scenario, s: &Session) -> Option<Violation> {
                         if p.snap != hex(want) {
                             return viol(
                                 "last-run-predates-last-change",
-                                format!("target={} {} last-word={}", c.display(t), change_placement(&c, t), last_word_for(&c, t)),
+                                format!("target={} {} last-word={}", c.display(t), change_placement(c, t), last_word_for(c, t)),
                                 format!("the last successful run of {} read inputs with snapshot {} but the final inputs have {}", c.display(t), p.snap, hex(want)),
                             );
                         }
@@ -580,6 +591,22 @@ pub fn oracle_c07_watch(sc: &Scenario, s: &Session) -> Option<Violation> {
                     format!("target={} failed-dep={}", c.display(&pt), disp),
                     format!("{} was started (seq {}) although its dependency {} failed at seq {} and has not succeeded since", c.display(&pt), p.spawn_seq, disp, fseq),
                 );
+            }
+        }
+    }
+    // "targets that do not depend on the failed one are unaffected": at the final idle point
+    // every closure target outside the failed targets' dependents is up to date
+    if let (Some(sg), Some(rt)) = (sig, ret) {
+        if sg < rt && r.exit_kind() == "main-returned" {
+            let failed_set: BTreeSet<Tid> = failed.iter().map(|f| f.0.clone()).collect();
+            for t in &c.clo {
+                let affected = failed_set.contains(t) || model::transitive_effective_deps(sc, t).iter().any(|d| failed_set.contains(d));
+                if affected {
+                    continue;
+                }
+                if let Some(v) = target_up_to_date(sc, s, &c, t, sg) {
+                    return viol("independent-target-affected-by-failure", format!("{} failed={}", v.witness, failed_set.iter().map(|f| c.display(f)).collect::<Vec<_>>().join(",")), format!("a target that does not depend on the failed one: {}", v.message));
+                }
             }
         }
     }
